@@ -4,6 +4,7 @@ package main
 
 import (
 	"encoding/binary"
+	"reflect"
 
 	"github.com/aldas/go-modbus-client/packet"
 )
@@ -140,6 +141,9 @@ func emitCtor(c ctor) {
 			return vErr(append([]V{Bool(!errNonNil)}, projErrTail(err)...)...)
 		}
 		_, p := projReq(req)
+		if c.fr == 0 && emitted%3 == 1 {
+			pokeProtocolID(req, uint16(1+emitted%65000))
+		}
 		return vOk(p, B(req.Bytes()), I(req.ExpectedResponseLength()))
 	})
 	tid := 0
@@ -147,6 +151,24 @@ func emitCtor(c ctor) {
 		tid, _ = projReq(req)
 	}
 	emit(c.name, L(c.fullArgs(tid)...), o)
+}
+
+// pokeProtocolID writes a non-zero value into the exported MBAPHeader.ProtocolID field of a TCP
+// request (callers set TransactionID through the same exported header): the wire bytes must carry
+// protocol id 0 regardless
+func pokeProtocolID(req packet.Request, v uint16) {
+	defer func() { _ = recover() }()
+	rv := reflect.ValueOf(req)
+	if rv.Kind() == reflect.Ptr {
+		rv = rv.Elem()
+	}
+	h := rv.FieldByName("MBAPHeader")
+	if h.IsValid() {
+		f := h.FieldByName("ProtocolID")
+		if f.IsValid() && f.CanSet() {
+			f.SetUint(uint64(v))
+		}
+	}
 }
 
 func coilPattern(r *rng, n int, kind int) []bool {
@@ -929,12 +951,12 @@ func streamEncRTU(seed uint64, thorough bool) {
 	// zero-pads, longer: it truncates) and FC17 values with and without additional data: the trailer
 	// must be the CRC of the bytes actually emitted
 	for _, fc := range []uint8{1, 2, 3, 4, 23} {
-		for blen := 0; blen <= 250; blen++ {
-			if !thorough && blen > 12 && blen%17 != 0 {
+		for blen := 0; blen <= 255; blen++ {
+			if !thorough && blen > 12 && blen%17 != 0 && blen < 248 {
 				continue
 			}
 			for _, dl := range []int{blen, blen - 1, blen - 2, blen + 1, blen + 3, 0} {
-				if dl < 0 || dl > 252 {
+				if dl < 0 || dl > 255 {
 					continue
 				}
 				if (fc == 1 || fc == 2) && dl != blen {
@@ -1014,10 +1036,19 @@ func isCoilSet(fc int, data []byte, start, addr uint16) V {
 	return guard(func() V {
 		var v bool
 		var err error
+		// the byte-length field of a response value is redundant (the encoders derive the count from
+		// Data): a value built in code may leave it 0 or stale, the lookup must not depend on it
+		bl := uint8(len(data))
+		switch (int(start) + int(addr) + len(data)) % 4 {
+		case 1:
+			bl = 0
+		case 2:
+			bl = uint8(len(data) / 2)
+		}
 		if fc == 1 {
-			v, err = packet.ReadCoilsResponse{UnitID: 1, CoilsByteLength: uint8(len(data)), Data: data}.IsCoilSet(start, addr)
+			v, err = packet.ReadCoilsResponse{UnitID: 1, CoilsByteLength: bl, Data: data}.IsCoilSet(start, addr)
 		} else {
-			v, err = packet.ReadDiscreteInputsResponse{UnitID: 1, InputsByteLength: uint8(len(data)), Data: data}.IsInputSet(start, addr)
+			v, err = packet.ReadDiscreteInputsResponse{UnitID: 1, InputsByteLength: bl, Data: data}.IsInputSet(start, addr)
 		}
 		if err != nil {
 			return vErr()
@@ -1244,6 +1275,34 @@ func streamClassify(seed uint64, thorough bool) {
 	for n := 0; n < 8; n++ {
 		b := r.bytes(n)
 		emit("classify", L(B(b), Bool(false)), classify(b, false))
+	}
+	// pairs: classify A, keep its error object, classify B, then look at A's error again
+	for i := 0; i < 400; i++ {
+		mk := func() []byte {
+			b := make([]byte, 8+r.intn(6))
+			for j := range b {
+				b[j] = r.u8()
+			}
+			putU16(b, 2, 0)
+			putU16(b, 4, uint16(3+r.intn(20)))
+			b[7] = byte(r.pick([]int{7, 8, 11, 12, 20, 22, 24, 43, 100, 126, 127, 0, 3, 16}))
+			return b
+		}
+		a, b2 := mk(), mk()
+		o := guard(func() V {
+			_, errA := packet.LooksLikeModbusTCP(a, false)
+			early := L()
+			if errA != nil {
+				early = L(projErrTail(errA)...)
+			}
+			_, _ = packet.LooksLikeModbusTCP(b2, false)
+			late := L()
+			if errA != nil {
+				late = L(projErrTail(errA)...)
+			}
+			return L(early, late)
+		})
+		emit("classify_pair", L(B(a), B(b2)), o)
 	}
 	emit("sentinels", L(), sentinelState())
 }
